@@ -1,33 +1,55 @@
 import CanvasModel.C01Split
 namespace Canvas.C01Split
 
-theorem changed_iff (zs : List Wn.IPt) (s0 s1 : Wn.IPt) :
-    changed zs s0 s1 = true ↔ 0 < splits zs.reverse s0 s1 := by
+theorem changed_iff (sIn : Bool) (zs : List Wn.IPt) (s0 s1 : Wn.IPt) :
+    changed sIn zs s0 s1 = true ↔ 0 < splits sIn zs.reverse s0 s1 := by
   unfold changed
   simp [Nat.pos_iff_ne_zero]
 
 /-- The flag is raised exactly when the queue received new events: whenever either segment was
 split, not only when both were. -/
-theorem addRet_iff_pushed (zs : List Wn.IPt) (a0 a1 b0 b1 : Wn.IPt) :
-    addRet zs a0 a1 b0 b1 = true ↔ 0 < pushed zs a0 a1 b0 b1 := by
+theorem addRet_iff_pushed (aIn bIn : Bool) (zs : List Wn.IPt) (a0 a1 b0 b1 : Wn.IPt) :
+    addRet aIn bIn zs a0 a1 b0 b1 = true ↔ 0 < pushed aIn bIn zs a0 a1 b0 b1 := by
   unfold addRet pushed
-  cases zs with
+  generalize keepZ aIn bIn a0 b0 zs = ks
+  cases ks with
   | nil => simp [splits]
-  | cons z zs =>
+  | cons z ks =>
     simp only [List.isEmpty_cons, Bool.false_eq_true, if_false, Bool.or_eq_true, changed_iff]
     omega
 
 /-- one-sided splits are reported: a T-junction (the end point of one segment in the interior of
 the other) splits one segment only -/
-theorem addRet_of_one_sided (zs : List Wn.IPt) (a0 a1 b0 b1 : Wn.IPt)
-    (h : 0 < splits zs.reverse a0 a1 ∨ 0 < splits zs.reverse b0 b1) : addRet zs a0 a1 b0 b1 = true := by
+theorem addRet_of_one_sided (aIn bIn : Bool) (zs : List Wn.IPt) (a0 a1 b0 b1 : Wn.IPt)
+    (h : 0 < splits aIn (keepZ aIn bIn a0 b0 zs).reverse a0 a1 ∨ 0 < splits bIn (keepZ aIn bIn a0 b0 zs).reverse b0 b1) :
+    addRet aIn bIn zs a0 a1 b0 b1 = true := by
   rw [addRet_iff_pushed]; unfold pushed; omega
 
-theorem pushed_even (zs : List Wn.IPt) (a0 a1 b0 b1 : Wn.IPt) : pushed zs a0 a1 b0 b1 % 2 = 0 := by
+theorem pushed_even (aIn bIn : Bool) (zs : List Wn.IPt) (a0 a1 b0 b1 : Wn.IPt) :
+    pushed aIn bIn zs a0 a1 b0 b1 % 2 = 0 := by
   unfold pushed; omega
 
+/-- a segment in the status is never split directly below its left end point (4e53250: the old
+"impossible: first segment became vertical and needs reversal" situation) -/
+theorem no_split_below_left_end (zs : List Wn.IPt) (s0 s1 : Wn.IPt)
+    (h : ∀ z ∈ zs, z.x = s0.x ∧ z.y < s0.y) : splits true zs s0 s1 = 0 := by
+  induction zs generalizing s1 with
+  | nil => rfl
+  | cons z zs ih =>
+    have hz := h z (List.mem_cons_self)
+    have ih' := ih s1 (fun w hw => h w (List.mem_cons_of_mem _ hw))
+    unfold splits
+    split
+    · exact ih'
+    · simp [hz.1, hz.2, ih']
+
 /-- non-vacuity: b ends in the interior of a (T-junction): only a is split, the flag is raised -/
-example : addRet [⟨2, 0⟩] ⟨0, 0⟩ ⟨4, 0⟩ ⟨2, 0⟩ ⟨3, 5⟩ = true ∧ pushed [⟨2, 0⟩] ⟨0, 0⟩ ⟨4, 0⟩ ⟨2, 0⟩ ⟨3, 5⟩ = 2 := by
+example : addRet false false [⟨2, 0⟩] ⟨0, 0⟩ ⟨4, 0⟩ ⟨2, 0⟩ ⟨3, 5⟩ = true ∧
+    pushed false false [⟨2, 0⟩] ⟨0, 0⟩ ⟨4, 0⟩ ⟨2, 0⟩ ⟨3, 5⟩ = 2 := by
+  decide
+
+/-- non-vacuity: b is in the status and the intersection lies directly below its left end -/
+example : splits true [⟨2, -1⟩] ⟨2, 0⟩ ⟨5, 3⟩ = 0 ∧ splits false [⟨2, -1⟩] ⟨2, 0⟩ ⟨5, 3⟩ = 1 := by
   decide
 
 end Canvas.C01Split
